@@ -48,6 +48,23 @@ def frames(rng, nframes, declare=True, maxw=8, maxh=5):
             k = rng.random()
             if k < 0.15 and (x, y) in cells:
                 e = cells[(x, y)][:4] + tg.attr(rng)          # attribute-only edit
+            elif k < 0.22 and (x, y) in cells and cells[(x, y)][0] == tg.CS_UTF8:
+                # glyph-only edit that changes exactly ONE storage byte of a UTF-8 glyph (the next code point, the same
+                # position in the neighbouring 64-block / 4096-block): what a sloppy glyph comparison takes for equal
+                old = cells[(x, y)]
+                b = list(old[1:4])
+                nb = sum(1 for v in b if v)
+                if nb == 3:
+                    i = rng.choice([0, 1, 2, 2])
+                    b[i] = (0xE0 + (b[0] - 0xE0 + 1) % 16) if i == 0 else (0x80 + (b[i] - 0x80 + rng.choice([1, 63, 32])) % 64)
+                    if b[0] == 0xE0 and b[1] < 0xA0:
+                        b[1] += 0x20                         # keep the encoding well formed (no overlong forms)
+                elif nb == 2:
+                    i = rng.choice([0, 1, 1])
+                    b[i] = (0xC2 + (b[0] - 0xC2 + 1) % 30) if i == 0 else (0x80 + (b[1] - 0x80 + rng.choice([1, 63])) % 64)
+                else:
+                    b[0] = 0x20 + (b[0] - 0x20 + 1) % 0x5F
+                e = [tg.CS_UTF8] + b + old[4:]
             elif k < 0.25:
                 e = [5, 32, 0, 0] + tg.DEFAULT_ATTR           # revert to blank
             elif k < 0.35 and prev is not None:
@@ -78,4 +95,58 @@ def single_cell_edits(w, h, cfgs):
             line = "S 0 ; tsz %d %d ; cv %d %d ; %s ; dr ; %s ; dr ; dr" % (w, h, w, h, " ; ".join(base), px(x, y, red))
             out.append((line, [cfgs[k % len(cfgs)], cfgs[(k + 5) % len(cfgs)]]))
             k += 1
+    return out
+
+
+def large_canvas_edits(rng, cfgs):
+    """canvases at least 100 cells wide or tall, with edits on and around rows/columns 9, 10, 98, 99, 100, 101
+    (one-, two- and three-digit coordinates in every cursor-addressing form the draw loop uses)"""
+    out = []
+    k = 0
+    e1 = [5, 65, 0, 0] + tg.DEFAULT_ATTR
+    e2 = [18, 0xE0, 0xB8, 0x81, 0, 1, 0, 0, 0, 9, 0, 0, 1, 24, 27, 25]
+    marks = [0, 8, 9, 10, 11, 98, 99, 100, 101, 109, 110]
+    for (w, h) in ((112, 2), (2, 112), (103, 102)):
+        for m in marks:
+            for n in marks[::3] + [m]:
+                pts = []
+                if m < w:
+                    pts += [(m, 0), (m, h - 1)]
+                if m < h:
+                    pts += [(0, m), (w - 1, m)]
+                if m < w and n < h:
+                    pts += [(m, n)]
+                if not pts:
+                    continue
+                first = " ; ".join(px(x, y, e1) for (x, y) in pts)
+                second = " ; ".join(px(x, y, e2) for (x, y) in pts[::-1])
+                line = "S %d ; tsz %d %d ; cv %d %d ; %s ; dr ; %s ; dr ; dr" % (rng.choice([0, 16]), w, h, w, h, first, second)
+                out.append((line, [cfgs[k % len(cfgs)]]))
+                k += 1
+    return out
+
+
+def glyph_byte_edits(cfgs):
+    """two-frame scripts in which ONE cell changes from a glyph to another glyph that differs from it in exactly one
+    storage byte - for every UTF-8 length class and lead-byte boundary (0x20, 0x7E, C2, DF, E0, E1, EF) and every byte
+    position - with identical attributes; and the same for single-byte charsets.  Each such cell has changed."""
+    out = []
+    k = 0
+    glyphs = []
+    for b0 in (0x20, 0x41, 0x7E):
+        glyphs.append(([18, b0, 0, 0], [[18, b0 ^ 1, 0, 0]]))
+        glyphs.append(([5, b0, 0, 0], [[5, b0 ^ 1, 0, 0], [0, b0, 0, 0]]))
+    for b0 in (0xC2, 0xC3, 0xD0, 0xDF):
+        glyphs.append(([18, b0, 0x80, 0], [[18, b0, 0x81, 0], [18, b0, 0xBF, 0], [18, b0 ^ 1 if b0 ^ 1 >= 0xC2 else 0xC4, 0x80, 0]]))
+    for b0 in (0xE0, 0xE1, 0xE8, 0xEC, 0xEF):
+        b1 = 0xA0 if b0 == 0xE0 else 0x80
+        glyphs.append(([18, b0, b1, 0x80], [[18, b0, b1, 0x81], [18, b0, b1, 0xBF], [18, b0, b1 + 1, 0x80], [18, b0, 0xBF, 0x80],
+                                            [18, (b0 + 1) if b0 < 0xEF else 0xEE, b1 if b0 != 0xE0 else 0xA0, 0x80]]))
+    for attr in (tg.DEFAULT_ATTR, [0, 1, 0, 0, 0, 4, 0, 0, 1, 4, 7, 5]):
+        for g, variants in glyphs:
+            for v in variants:
+                for (a, b) in ((g, v), (v, g)):
+                    line = "S 0 ; tsz 3 2 ; cv 3 2 ; %s ; dr ; %s ; dr ; %s ; dr" % (px(1, 0, a + attr), px(1, 0, b + attr), px(1, 0, a + attr))
+                    out.append((line, [cfgs[k % len(cfgs)]]))
+                    k += 1
     return out
